@@ -5,15 +5,26 @@ use serde_json::Value;
 use std::path::Path;
 use std::time::Instant;
 
+pub mod c10;
+pub mod c11;
 pub mod c12;
 pub mod c19;
 
+type RunFn = fn(&Env, &Known, Instant, u64, Vec<Violation>) -> i32;
+type ReplayFn = fn(&Value) -> Outcome;
+
+const TABLE: &[(&str, RunFn, ReplayFn)] = &[
+    ("C10", c10::run, c10::replay),
+    ("C11", c11::run, c11::replay),
+    ("C12", c12::run, c12::replay),
+    ("C19", c19::run, c19::replay),
+];
+
 /// Result of replaying one saved input.
 pub fn replay_value(pid: &str, v: &Value) -> Outcome {
-    match pid {
-        "C12" => c12::replay(v),
-        "C19" => c19::replay(v),
-        _ => Outcome::skip("no replay handler"),
+    match TABLE.iter().find(|(id, _, _)| *id == pid) {
+        Some((_, _, r)) => r(v),
+        None => Outcome::skip("no replay handler"),
     }
 }
 
@@ -28,10 +39,9 @@ pub fn run(id: &str, env: &Env, known: &Known) -> i32 {
             replay_violations.push(v);
         }
     }
-    let code = match id {
-        "C12" => c12::run(env, known, started, replayed, replay_violations),
-        "C19" => c19::run(env, known, started, replayed, replay_violations),
-        _ => {
+    let code = match TABLE.iter().find(|(i, _, _)| *i == id) {
+        Some((_, r, _)) => r(env, known, started, replayed, replay_violations),
+        None => {
             eprintln!("unknown check {id}");
             2
         }
